@@ -25,7 +25,6 @@ def run_with_hashes(cfg):
     from tempest.steps.mutate import Mutator
     c = runs.full(cfg)
     np.random.seed(c["seed"])
-    s, t, like, pt = runs.build(c)
     hashes = []
     with attach.Hooks() as hk:
         for cls in (Reweighter, Trainer, Resampler, Mutator):
@@ -33,7 +32,7 @@ def run_with_hashes(cfg):
             hk.wrap(cls, "run", before=lambda *a, nm=nm, **k: hashes.append((nm + ":in", state_hash())),
                     after=lambda ctx, r, *a, nm=nm, **k: hashes.append((nm + ":out", state_hash())))
         attach.iteration_budget(hk, 400)
-        s.run(n_total=c["n_total"], progress=False)
+        s, t, like, pt = runs.execute(c)
     # within-run repeats: the same state at two *different* boundaries separated by a draw
     seq = [h for _, h in hashes]
     distinct_runs = [seq[0]]
@@ -68,6 +67,10 @@ def run():
             cells.append(dict(target="gauss4", N=N, n_total=8 * N, mode="vec", kernel=kern, resample="mult", clustering=False))
             if kern == "tpcn":     # posterior 1000x narrower than the prior; RWM's finite-N error there exceeds any fair allowance
                 cells.append(dict(target="gauss2", N=N, n_total=8 * N, mode="vec", kernel=kern, resample="syst", clustering=False, tkw=dict(half=500.0, rho=0.5)))
+    # a run stopped half-way and continued by a new sampler with four times / a quarter of the particles (stored batches of
+    # different sizes): the evidence of the continued run is judged like any other
+    cells.append(dict(target="gauss2", N=128, n_total=1024, mode="vec", kernel="tpcn", resample="syst", clustering=False, continue_with=512))
+    cells.append(dict(target="gauss2", N=256, n_total=1024, mode="vec", kernel="rwm", resample="mult", clustering=False, continue_with=64))
     Nmax = max(Ns)
     store = {}
 
